@@ -42,35 +42,33 @@ namespace lang
     std::string join(InputIterator begin, InputIterator end,
                      const std::string& infix = std::string(" "))
     {
-        if (begin == end)
-            return {};
-
         std::stringstream s;
 
-        auto it = begin;
+        bool first = true;
 
-        for (; it + 1 != end; ++it)
+        for (auto it = begin; it != end; ++it)
         {
-            auto pos = s.tellp();
+            std::stringstream element;
+            element << *it;
 
-            s << *it;
+            auto str = element.str();
 
-            if (s.tellp() != pos)
+            // empty elements are skipped, so the infix never leads, trails or doubles
+            if (str.empty())
+            {
+                continue;
+            }
+
+            if (!first)
             {
                 s << infix;
             }
+
+            s << str;
+            first = false;
         }
 
-        s << *it;
-
-        auto str = s.str();
-
-        if (!str.empty() && str.back() == ' ')
-        {
-            return str.substr(0, str.size() - 1);
-        }
-
-        return str;
+        return s.str();
     }
 
     inline std::string join(const std::vector<std::string>& strs,
